@@ -254,7 +254,7 @@ theorem hmac_ok_length (H : Bytes → Bytes) (hH : ∀ x, (H x).length = 64) (ke
       (∀ mac, hmacVerify H mac msg key = if mac = c then .ok () else .err) := by
   refine ⟨_, hmac_ok H key msg hk, by rw [List.length_take, hH]; rfl, ?_⟩
   intro mac
-  unfold hmacVerify
+  rw [hmacVerify_eq_if]
   rw [hmac_ok H key msg hk]
 
 /-- the key-length hypothesis cannot be dropped: a key of more than 128 bytes makes the verification panic
